@@ -96,6 +96,7 @@ def _engine_rules(ctx):
                "from base.random_state_ before BackendEngine.__init__ builds the networks: list-specified networks are initialised from "
                "the process-wide generator state, so a refit differs from a fresh fit", construct=f"{cname} seeds before building")
     ctx.floor("R19.10", "back-end constructors", n, 2)
+    _engine_history(ctx)
     # bring the engine classes into the argument-purity scan (R19.P)
     for mod, cname in ((M_BE, "BackendEngine"), (M_PT, "PytorchEngine"), (M_TF, "TensorflowEngine")):
         cls = f"{mod}:{cname}"
@@ -105,6 +106,107 @@ def _engine_rules(ctx):
                     A.run(fq, cls_ctx=cls)
                 except AnalysisError:
                     pass  # a construct of an engine helper that is not modelled: the seeding obligation above does not depend on it
+
+
+def _engine_history(ctx):
+    """BackendEngine.__init__ receives the estimator (`base`) in the middle of its fit: what __setup assigned before it built the
+    engine is state of this fit; anything else that is not configuration (in practice `backendEngine_`, the engine of the previous
+    fit) is state of an earlier fit and may be tested for / read only under `base.warm_start`."""
+    from .common import M_ADV, M_BE
+    est = M_ADV + ":_AdversarialFairness"
+    A = Analysis(ctx, max_depth=1)
+    rs = A.run(est + ".__setup", cls_ctx=est)
+    made = [e for e in rs.events if e.kind == "store" and e.data.get("tkind") == "attr" and e.data.get("obj") is rs.self_term
+            and e.data["attr"] == "backendEngine_"]
+    ctx.require(len(made) >= 1, "anchor vanished: __setup stores backendEngine_")
+    first = min(e.seq for e in made)
+    fresh = {e.data["attr"] for e in rs.events if e.kind == "store" and e.data.get("tkind") == "attr" and e.data.get("obj") is rs.self_term
+             and e.seq < first}
+    config = set(ctx.prog.ctor_params(est)) | set(config_attrs(ctx.prog, A.ev, est))
+    cls = M_BE + ":BackendEngine"
+    r = Analysis(ctx, max_depth=0).run(cls + ".__init__", cls_ctx=cls)
+    base = r.params.get("base")
+    ctx.require(base is not None, "anchor vanished: BackendEngine.__init__(self, base, ...)")
+
+    def terms_of(e):
+        out = list(e.pc)
+        for v in e.data.values():
+            if isinstance(v, T):
+                out.append(v)
+            elif isinstance(v, (tuple, list)):
+                for x in v:
+                    if isinstance(x, T):
+                        out.append(x)
+                    elif isinstance(x, tuple):
+                        out.extend(y for y in x if isinstance(y, T))
+        return out
+
+    def guarded(e):
+        lits = list(pc_literals(e.pc)) + ([e.data["cond"]] if e.kind == "branch" and isinstance(e.data.get("cond"), T) else [])
+        return any(contains(x, lambda s_: s_.op == "attr" and s_.args[1] == "warm_start" and s_.args[0] is base) for x in lits)
+    n_reads = 0
+    bad = {}
+    def has_ws(c):
+        return contains(c, lambda s_: s_.op == "attr" and s_.args[1] == "warm_start" and s_.args[0] is base)
+
+    def uses(t, g, out, seen):
+        """(name, guarded) for every use of base.<name> in t; a value selected by `x if base.warm_start and .. else y` is guarded in x"""
+        if (t.uid, g) in seen:
+            return
+        seen.add((t.uid, g))
+        if t.op == "attr" and t.args[0] is base:
+            out.add((t.args[1], g))
+            return
+        if t.op == "call" and t.args[0].op == "global" and t.args[0].args[0] in ("builtins.hasattr", "builtins.getattr") \
+                and len(t.args[1]) >= 2 and t.args[1][0] is base and t.args[1][1].op == "const":
+            out.add((const_value(t.args[1][1]), g))
+            return
+        if t.op == "ite":
+            c, a_, b_ = t.args
+            uses(c, g, out, seen)
+            pos = has_ws(c) and not (c.op == "not")
+            uses(a_, g or pos, out, seen)
+            uses(b_, g or (has_ws(c) and c.op == "not"), out, seen)
+            return
+        if t.op in ("and", "or") and t.args and isinstance(t.args[0], tuple):
+            # short-circuit: operands after a warm_start conjunct are evaluated only when it holds
+            g2 = g
+            for x in t.args[0]:
+                uses(x, g2, out, seen)
+                if t.op == "and" and has_ws(x):
+                    g2 = True
+            return
+        for x in t.args:
+            if isinstance(x, T):
+                uses(x, g, out, seen)
+            elif isinstance(x, tuple):
+                for y in x:
+                    if isinstance(y, T):
+                        uses(y, g, out, seen)
+                    elif isinstance(y, tuple):
+                        for z in y:
+                            if isinstance(z, T):
+                                uses(z, g, out, seen)
+    for e in r.events:
+        found = set()
+        seen = set()
+        g0 = guarded(e)
+        for t in terms_of(e):
+            uses(t, g0, found, seen)
+        for nm, g in found:
+            if nm in config or nm in fresh or nm == "warm_start" or not isinstance(nm, str):
+                continue
+            n_reads += 1
+            if not g and nm not in bad:
+                bad[nm] = e
+    for nm, e in bad.items():
+        ctx.ob("R19.10", r.func, e.node, False, f"BackendEngine.__init__ uses base.{nm} - state that only an earlier fit of the estimator can "
+               "have left - outside a `base.warm_start` guard: a second fit continues from the networks of the first instead of "
+               "behaving like a fresh one", construct=f"engine reads earlier-fit state {nm}")
+    if not bad:
+        ctx.ob("R19.10", r.func, None, True, f"BackendEngine.__init__: {n_reads} uses of estimator state that this fit has not assigned; "
+               "each is guarded by base.warm_start", construct="engine history scan", nontrivial=bool(n_reads))
+    ctx.floor("R19.10", "uses of earlier-fit estimator state in BackendEngine.__init__", n_reads, 1)
 
 
 def lifecycle_of(ctx, classes, alias: dict):
